@@ -681,9 +681,13 @@ pub fn export<'tcx>(tcx: TyCtxt<'tcx>, fmt: J) {
         }
         if matches!(kind, DefKind::Fn | DefKind::AssocFn) {
             let sig = tcx.fn_sig(did).instantiate_identity().skip_norm_wip().skip_binder();
-            let ins: Vec<J> = sig.inputs().iter().map(|t| cx.ty(*t)).collect();
+            let env = ty::TypingEnv::post_analysis(tcx, did);
+            let norm = |t: Ty<'tcx>| -> Ty<'tcx> {
+                tcx.try_normalize_erasing_regions(env, ty::Unnormalized::new_wip(t)).unwrap_or(t)
+            };
+            let ins: Vec<J> = sig.inputs().iter().map(|t| cx.ty(norm(*t))).collect();
             o.push(("sig_in", J::Arr(ins)));
-            let out = cx.ty(sig.output());
+            let out = cx.ty(norm(sig.output()));
             o.push(("sig_out", out));
             o.push(("unsafe_fn", J::Bool(sig.safety().is_unsafe())));
             let g = tcx.generics_of(did);
